@@ -367,3 +367,59 @@ def calls_where(ctx, fi: FuncInfo, pred: Callable[[FuncInfo], bool], depth: int 
         if len(fs) == 1 and fs[0].fq != fi.fq and sat(fs[0], depth - 1, {fi.fq}):
             out.append(call)
     return out
+
+
+def ctor_param_unused(ctx, fi, call: ast.Call, cls, param: str) -> bool:
+    """True when leaving out `param` at this constructor call cannot matter: the new object is bound to one local name, that
+    name is only used as the receiver of method calls, and none of the methods called (closed under self.method() calls)
+    reads an attribute that __init__ derives from `param`."""
+    init = cls.find_method('__init__')
+    if init is None:
+        return False
+    attrs = set()
+    for n in walk_local(init.node):
+        if isinstance(n, (ast.Assign, ast.AnnAssign)):
+            tgts = n.targets if isinstance(n, ast.Assign) else [n.target]
+            val = n.value
+            if val is not None and any(isinstance(x, ast.Name) and x.id == param for x in ast.walk(val)):
+                for t in tgts:
+                    if isinstance(t, ast.Attribute) and norm(t.value) == 'self':
+                        attrs.add(t.attr)
+    # other uses of the parameter inside __init__ (conditions, calls) make the answer unknown
+    uses = [x for x in walk_local(init.node) if isinstance(x, ast.Name) and x.id == param and isinstance(x.ctx, ast.Load)]
+    if not attrs or not uses:
+        return False
+    pm = ctx.repo.parent_map(fi.node)
+    par = pm.get(id(call))
+    if not (isinstance(par, (ast.Assign, ast.AnnAssign)) and isinstance((par.targets[0] if isinstance(par, ast.Assign) else par.target), ast.Name)):
+        return False
+    name = (par.targets[0] if isinstance(par, ast.Assign) else par.target).id
+    called = set()
+    for x in walk_local(fi.node):
+        if isinstance(x, ast.Name) and x.id == name and isinstance(x.ctx, ast.Load):
+            p = pm.get(id(x))
+            pp = pm.get(id(p)) if p is not None else None
+            if isinstance(p, ast.Attribute) and isinstance(pp, ast.Call) and pp.func is p:
+                called.add(p.attr)
+            else:
+                return False                     # the object escapes or is used in another way
+    # nested functions may also use the name
+    for x in ast.walk(fi.node):
+        if isinstance(x, (ast.FunctionDef, ast.Lambda)) and x is not fi.node and any(isinstance(y, ast.Name) and y.id == name for y in ast.walk(x)):
+            return False
+    todo, seen = list(called), set()
+    while todo:
+        m = todo.pop()
+        if m in seen:
+            continue
+        seen.add(m)
+        meth = cls.find_method(m)
+        if meth is None:
+            return False
+        for y in walk_local(meth.node):
+            if isinstance(y, ast.Attribute) and norm(y.value) == 'self':
+                if y.attr in attrs:
+                    return False
+                if cls.find_method(y.attr) is not None:
+                    todo.append(y.attr)
+    return True
